@@ -448,6 +448,9 @@ def c05e(ctx):
                 if dynamic:
                     _bulk_load(ctx, fn, defs, call, stmts, base)
                     continue
+                if call.func.attr == 'executemany' and isinstance(args, ast.Name):
+                    _bulk_insert(ctx, fn, call, args, base)
+                    continue
                 # --- arity
                 arity = _arity(args, defs)
                 for s in stmts:
@@ -494,6 +497,62 @@ def c05e(ctx):
                             ctx.check(set(addr) == set(ADDRESS_COLS), base + ':select-full-address',
                                       'single-tile SELECT is bound to column, row and level', fn, call,
                                       fail='single-tile SELECT is bound to %s only' % addr)
+
+
+def _bulk_insert(ctx, fn, call, args, base):
+    """executemany(<sql>, <list>): for every truth assignment of the self.<flag> tests of the function (the statement text and the
+    record layout usually depend on the same flag) the statement that reaches the call and the records appended on that
+    assumption agree in arity and in the column convention"""
+    import itertools
+    g = fn.cfg
+    flags = sorted({at.text for s, d, test, pol in g.branch_edges() for at, p in implied(test, pol) if at.op is None and at.text.startswith('self.')})
+    if len(flags) > 4:
+        raise Undecided('%s: %d flags control the bulk insert' % (fn.qn, len(flags)))
+    n = g.node_for(call)
+    appends = [(g.node_for(x), x) for x in fn.walk() if is_call(x, args.id + '.append') and x.args]
+    seen = 0
+    for vals in itertools.product([True, False], repeat=len(flags)):
+        assume = dict(zip(flags, vals))
+        cf = Canon(fn, assume=assume)
+        if n in cf.infeasible:
+            continue
+        forms = [v for v in str_variants(cf.expr(call.args[0]), Defs(ast.Module(body=[], type_ignores=[]))) if v != HOLE]
+        if len(forms) != 1:
+            raise Undecided('%s: SQL of the bulk insert is not a single literal under %s: %s' % (fn.qn, assume, unparse(call.args[0])[:60]))
+        sql = ast.Constant(value=forms[0])
+        recs = []
+        for an, x in appends:
+            if an in cf.infeasible:
+                continue
+            t = cf.expr(x.args[0])
+            if not isinstance(t, ast.Tuple):
+                raise Undecided('%s: cannot find the record tuple appended to %s under %s' % (fn.qn, args.id, assume))
+            recs.append((x, t))
+        if not recs:
+            raise Undecided('%s: no record is appended to %s under %s' % (fn.qn, args.id, assume))
+        seen += 1
+        label = ','.join('%s=%s' % (k.replace('self.', ''), 'T' if v else 'F') for k, v in assume.items()) or '-'
+        nq = sql.value.count('?')
+        cols, nvals = _insert_cols(sql.value)
+        for x, t in recs:
+            ctx.check(len(t.elts) == nq, '%s:arity[%s]' % (base, label), '%d placeholders, records of %d values' % (nq, len(t.elts)), fn, call,
+                      fail='under %s the statement has %d placeholders but the records have %d values: %s' % (
+                          label, nq, len(t.elts), ' '.join(sql.value.split())[:90]))
+            for col, e in zip(cols or [], t.elts):
+                if col in COLVAR:
+                    role = _coord_role_cf(e)
+                    ctx.check(role == COLVAR[col], '%s:insert-%s' % (base, col),
+                              'INSERT column %s receives coord[%d]' % (col, COLVAR[col]), fn, x,
+                              fail='INSERT column %s receives %s (coord[%s]), expected coord[%d]' % (col, unparse(e), role, COLVAR[col]))
+    if not seen:
+        raise Undecided('%s: the bulk insert is not reachable under any flag assignment' % fn.qn)
+
+
+def _coord_role_cf(e):
+    """0/1/2 if the closed form e is element k of a .coord"""
+    if isinstance(e, ast.Subscript) and unparse(e.value).endswith('.coord'):
+        return const_value(e.slice)
+    return None
 
 
 def _expand_defs(e, defs):
@@ -559,9 +618,16 @@ def _bulk_load(ctx, fn, defs, call, stmts, base):
         for v, sel in defs.of(plist.id):
             if isinstance(v, ast.Subscript) and isinstance(v.value, ast.Name):
                 src = v.value.id
-    appends = [n for n in sorted(ast.walk(fn.node), key=lambda n: (getattr(n, 'lineno', 0), getattr(n, 'col_offset', 0)))
-               if src and is_call(n, src + '.append') and n.args]
-    roles = [_coord_role(a.args[0], defs) for a in appends]
+    appended = []
+    for n in sorted(ast.walk(fn.node), key=lambda n: (getattr(n, 'lineno', 0), getattr(n, 'col_offset', 0))):
+        if src and is_call(n, src + '.append') and n.args:
+            appended.append(n.args[0])
+        elif src and is_call(n, src + '.extend') and n.args and isinstance(n.args[0], (ast.Tuple, ast.List)):
+            appended.extend(n.args[0].elts)
+        elif src and isinstance(n, ast.AugAssign) and unparse(n.target) == src and isinstance(n.op, ast.Add) and isinstance(n.value, (ast.Tuple, ast.List)):
+            appended.extend(n.value.elts)
+    cf = Canon(fn)
+    roles = [_coord_role_cf(cf.expr(a)) if _coord_role(a, defs) is None else _coord_role(a, defs) for a in appended]
     want = [COLVAR[c] for c in ccols if c in COLVAR]
     ctx.check(roles == want, base + ':param-order', 'parameters are appended in the order of the clause columns %s' % ccols,
               fn, call, fail='parameters are appended as coord%s but the clause binds %s' % (roles, ccols))
@@ -596,6 +662,30 @@ def _bulk_load(ctx, fn, defs, call, stmts, base):
             _row_assoc(ctx, fn, defs, cols, base, s)
 
 
+def _row_index(e, defs, depth=3):
+    """index of the result column an expression reads: row[i], a name bound to row[i], or the k-th name of `a, b, .. = row[:n]` /
+    `a, b, .. = row`, where row is the loop variable over the cursor"""
+    def is_row(x):
+        return isinstance(x, ast.Name) and any(sel == 'elem' for v, sel in defs.of(x.id))
+    if isinstance(e, ast.Subscript) and is_row(e.value):
+        i = const_value(e.slice)
+        return i if isinstance(i, int) else None
+    if isinstance(e, ast.Name) and depth > 0:
+        ds = defs.of(e.id)
+        if len(ds) != 1:
+            return None
+        v, sel = ds[0]
+        if sel is None:
+            return _row_index(v, defs, depth - 1)
+        if isinstance(sel, int):
+            if is_row(v):
+                return sel
+            if isinstance(v, ast.Subscript) and is_row(v.value) and isinstance(v.slice, ast.Slice) and v.slice.step is None:
+                lo = 0 if v.slice.lower is None else const_value(v.slice.lower)
+                return lo + sel if isinstance(lo, int) and lo >= 0 else None
+    return None
+
+
 def _row_assoc(ctx, fn, defs, cols, base, stmt):
     # key used to store tiles: tile_dict[KEY] = tile
     stores = [n for n in ast.walk(fn.node) if isinstance(n, ast.Subscript) and isinstance(n.ctx, ast.Store)
@@ -605,7 +695,8 @@ def _row_assoc(ctx, fn, defs, cols, base, stmt):
         dname = st.value.id
         key = st.slice
         kelts = key.elts if isinstance(key, ast.Tuple) else [key]
-        kroles = [_coord_role(e, defs) for e in kelts]
+        cf = Canon(fn)
+        kroles = [_coord_role(e, defs) if _coord_role(e, defs) is not None else _coord_role_cf(cf.expr(e)) for e in kelts]
         ctx.check(sorted(r for r in kroles if r is not None) == [0, 1, 2], base + ':row-key-complete',
                   'rows are associated with tiles by (column, row, level)', fn, st,
                   fail='rows are associated with tiles by the key %s = coord%s although the query selects by column, '
@@ -614,7 +705,7 @@ def _row_assoc(ctx, fn, defs, cols, base, stmt):
             if isinstance(n, ast.Subscript) and isinstance(n.ctx, ast.Load) and isinstance(n.value, ast.Name) \
                     and n.value.id == dname:
                 lk = n.slice.elts if isinstance(n.slice, ast.Tuple) else [n.slice]
-                idx = [const_value(e.slice) if isinstance(e, ast.Subscript) else None for e in lk]
+                idx = [_row_index(e, defs) if _row_index(e, defs) is not None else _row_index(cf.expr(e), defs) for e in lk]
                 want = []
                 okk = len(lk) == len(kelts)
                 names = []
@@ -628,15 +719,14 @@ def _row_assoc(ctx, fn, defs, cols, base, stmt):
                               unparse(n.slice), names, cols, kroles))
     # data / timestamp column indices
     for n in ast.walk(fn.node):
-        if isinstance(n, ast.Assign) and isinstance(n.value, ast.Subscript) and isinstance(n.value.value, ast.Name) \
-                and n.value.value.id == 'row' and isinstance(n.targets[0], ast.Name) and n.targets[0].id == 'data':
-            i = const_value(n.value.slice)
+        if is_call(n, 'BytesIO') and n.args and (_row_index(n.args[0], defs) is not None or _row_index(Canon(fn).expr(n.args[0]), defs) is not None):
+            i = _row_index(n.args[0], defs)
+            i = i if i is not None else _row_index(Canon(fn).expr(n.args[0]), defs)
             ctx.check(isinstance(i, int) and i < len(cols) and cols[i] == 'tile_data', base + ':data-column',
                       'tile bytes are read from the tile_data column (row[%s])' % i, fn, n,
                       fail='tile bytes are read from row[%s] = %s of SELECT %s' % (i, cols[i] if isinstance(i, int) and i < len(cols) else '?', cols))
-        if is_call(n, 'sqlite_datetime_to_timestamp') and n.args and isinstance(n.args[0], ast.Subscript) \
-                and unparse(n.args[0].value) == 'row' and 'last_modified' in cols:
-            i = const_value(n.args[0].slice)
+        if is_call(n, 'sqlite_datetime_to_timestamp') and n.args and _row_index(n.args[0], defs) is not None and 'last_modified' in cols:
+            i = _row_index(n.args[0], defs)
             ctx.check(isinstance(i, int) and i < len(cols) and cols[i] == 'last_modified', base + ':timestamp-column',
                       'timestamp is read from the last_modified column (row[%s])' % i, fn, n,
                       fail='timestamp is read from row[%s] = %s' % (i, cols[i] if isinstance(i, int) and i < len(cols) else '?'))
